@@ -135,7 +135,7 @@ func (intr *treeInterpreter) Execute(node ASTNode, value interface{}) (interface
 				reflectFlat := []interface{}{}
 				v := reflect.ValueOf(element)
 				for i := 0; i < v.Len(); i++ {
-					reflectFlat = append(reflectFlat, v.Index(i).Interface())
+					reflectFlat = append(reflectFlat, nilIfNilPtr(v.Index(i).Interface()))
 				}
 				flattened = append(flattened, reflectFlat...)
 			} else {
@@ -165,7 +165,7 @@ func (intr *treeInterpreter) Execute(node ASTNode, value interface{}) (interface
 			}
 			if index < rv.Len() && index >= 0 {
 				v := rv.Index(index)
-				return v.Interface(), nil
+				return nilIfNilPtr(v.Interface()), nil
 			}
 		}
 		return nil, nil
@@ -324,7 +324,7 @@ func (intr *treeInterpreter) fieldFromStruct(key string, value interface{}) (int
 		if !v.IsValid() {
 			return nil, nil
 		}
-		return v.Interface(), nil
+		return nilIfNilPtr(v.Interface()), nil
 	} else if rv.Kind() == reflect.Ptr {
 		// Handle multiple levels of indirection?
 		if rv.IsNil() {
@@ -335,7 +335,7 @@ func (intr *treeInterpreter) fieldFromStruct(key string, value interface{}) (int
 		if !v.IsValid() {
 			return nil, nil
 		}
-		return v.Interface(), nil
+		return nilIfNilPtr(v.Interface()), nil
 	}
 	return nil, nil
 }
@@ -344,15 +344,15 @@ func (intr *treeInterpreter) flattenWithReflection(value interface{}) (interface
 	v := reflect.ValueOf(value)
 	flattened := []interface{}{}
 	for i := 0; i < v.Len(); i++ {
-		element := v.Index(i).Interface()
-		if reflect.TypeOf(element).Kind() == reflect.Slice {
+		element := nilIfNilPtr(v.Index(i).Interface())
+		if isSliceType(element) {
 			// Then insert the contents of the element
 			// slice into the flattened slice,
 			// i.e flattened = append(flattened, mySlice...)
 			elementV := reflect.ValueOf(element)
 			for j := 0; j < elementV.Len(); j++ {
 				flattened = append(
-					flattened, elementV.Index(j).Interface())
+					flattened, nilIfNilPtr(elementV.Index(j).Interface()))
 			}
 		} else {
 			flattened = append(flattened, element)
@@ -373,7 +373,7 @@ func (intr *treeInterpreter) sliceWithReflection(node ASTNode, value interface{}
 	}
 	final := []interface{}{}
 	for i := 0; i < v.Len(); i++ {
-		element := v.Index(i).Interface()
+		element := nilIfNilPtr(v.Index(i).Interface())
 		final = append(final, element)
 	}
 	return slice(final, sliceParams)
@@ -384,7 +384,7 @@ func (intr *treeInterpreter) filterProjectionWithReflection(node ASTNode, value 
 	collected := []interface{}{}
 	v := reflect.ValueOf(value)
 	for i := 0; i < v.Len(); i++ {
-		element := v.Index(i).Interface()
+		element := nilIfNilPtr(v.Index(i).Interface())
 		result, err := intr.Execute(compareNode, element)
 		if err != nil {
 			return nil, err
@@ -406,7 +406,7 @@ func (intr *treeInterpreter) projectWithReflection(node ASTNode, value interface
 	collected := []interface{}{}
 	v := reflect.ValueOf(value)
 	for i := 0; i < v.Len(); i++ {
-		element := v.Index(i).Interface()
+		element := nilIfNilPtr(v.Index(i).Interface())
 		result, err := intr.Execute(node.children[1], element)
 		if err != nil {
 			return nil, err
